@@ -34,6 +34,17 @@ class C03(ProgProp):
                                                for i in range(nv)]}
         return ProgProp.gen(self, rng, tier, k)
 
+    def post_spec(self, rng, spec, cfg, tier):
+        # every fourth multi-kind program: the first flushes of each kind cancel another kind's
+        # pending (and possibly already scheduled) batch - a completed batch that still holds its
+        # items sits in the scheduler's set; the tasks blocked on it must still be resumed once
+        if spec["kinds"] >= 2 and rng.random() < 0.25 and not spec.get("debug_kinds"):
+            fl = spec.setdefault("faults", {}).setdefault("flushes", {})
+            for k in range(spec["kinds"]):
+                for o in (1, 2):
+                    if rng.random() < 0.6:
+                        fl.setdefault("%d#%d" % (k, o), {})["cancel_kind"] = (k + rng.randint(1, spec["kinds"] - 1)) % spec["kinds"]
+
     def sample(self, case, r):
         if "deep" in case:
             return case
